@@ -78,14 +78,15 @@ def denoteConcItem (P : Params) (env : Env) : RConcItem → Res Unit × Env
   | .call c => match denote P env false c with
     | (.ok _, e) => (.ok (), e) | (.err c, e) => (.err c, e) | (.panic, e) => (.panic, e)
 
-/-- every child of a conc block runs exactly once; the block fails after all of them finished if
-    any failed (children are independent; interleavings: GV.Eval.Conc) -/
-def denoteConc (P : Params) : List RConcItem → Env → Bool → Res Unit × Env
-  | [], env, failed => (if failed then .err none else .ok (), env)
+/-- every child of a conc block runs exactly once; the block fails, after all of them finished,
+    if any failed, with the children's errors (children are independent; interleavings:
+    GV.Props.C18) -/
+def denoteConc (P : Params) : List RConcItem → Env → Option (Option Nat) → Res Unit × Env
+  | [], env, failed => (concOut failed, env)
   | it :: rest, env, failed =>
     match denoteConcItem P env it with
     | (.ok _, e1) => denoteConc P rest e1 failed
-    | (.err _, e1) => denoteConc P rest e1 true
+    | (.err c, e1) => denoteConc P rest e1 (firstErr failed c)
     | (.panic, e1) => (.panic, e1)
 
 mutual
@@ -116,7 +117,7 @@ mutual
          | some ks => rangeLoop (fun e k => setValue e key k) (some (fun e => denoteB P e body)) ks env)
     | .brk => (.brk, env)
     | .cont => (.cont, env)
-    | .conc items => toSU (denoteConc P items env false)
+    | .conc items => toSU (denoteConc P items env none)
 
   def denoteSL (P : Params) (env : Env) : RSList → SRes × Env
     | .nil => (.normal, env)
